@@ -426,14 +426,15 @@ func decStrRepl(mode int, c byte) []byte {
 	if idx < 0 {
 		idx = 0
 	}
+	// c^0x20 is the same letter in the other case
 	if mode == 0 {
-		return []byte{b58Alphabet[(idx+1)%58], b58Alphabet[(idx+29)%58], 0x30}
+		return []byte{b58Alphabet[(idx+1)%58], b58Alphabet[(idx+29)%58], 0x30, c ^ 0x20, c + 1}
 	}
 	var r []byte
 	for k := 0; k < 57; k++ {
 		r = append(r, b58Alphabet[(idx+1+k)%58])
 	}
-	return append(r, 0x30, 0x6c, 0x20, 0xc3)
+	return append(r, 0x30, 0x6c, 0x20, 0xc3, c^0x20, c+1, c-1)
 }
 
 // decStrVariants mirrors Pool.Dec.strVariants.
